@@ -7120,7 +7120,7 @@ bool SoPlexBase<R>::areLPsInSync(const bool checkVecVals, const bool checkMatVal
       lowerDimMatch = false;
    }
 
-   // compares the values of the rhs, lhs, maxObj, upper, lower vectors
+   // compares the values of the rhs, lhs, maxObj, upper, lower vectors (through the accessors that undo persistent scaling)
    if(checkVecVals)
    {
       bool rhsValMatch = true;
@@ -7134,17 +7134,17 @@ bool SoPlexBase<R>::areLPsInSync(const bool checkVecVals, const bool checkMatVal
       {
          for(int i = 0; i < _realLP->rhs().dim(); i++)
          {
-            if(((_realLP->rhs()[i] >= R(realParam(SoPlexBase<R>::INFTY)))
+            if(((rhsReal(i) >= R(realParam(SoPlexBase<R>::INFTY)))
                   != (_rationalLP->rhs()[i] >= _rationalPosInfty))
-                  || (_realLP->rhs()[i] < R(realParam(SoPlexBase<R>::INFTY))
+                  || (rhsReal(i) < R(realParam(SoPlexBase<R>::INFTY))
                       && _rationalLP->rhs()[i] < _rationalPosInfty
-                      && !isAdjacentTo(_rationalLP->rhs()[i], (double)_realLP->rhs()[i])))
+                      && !isAdjacentTo(_rationalLP->rhs()[i], (double)rhsReal(i))))
             {
                if(!quiet)
                {
                   SPX_MSG_INFO1(spxout, spxout << "Entries number " << i <<
                                 " of the right hand side vectors don't match."
-                                << " R LP: " << _realLP->rhs()[i] << "  Rational LP: " << _rationalLP->rhs()[i] << std::endl);
+                                << " R LP: " << rhsReal(i) << "  Rational LP: " << _rationalLP->rhs()[i] << std::endl);
                }
 
                rhsValMatch = false;
@@ -7164,17 +7164,17 @@ bool SoPlexBase<R>::areLPsInSync(const bool checkVecVals, const bool checkMatVal
       {
          for(int i = 0; i < _realLP->lhs().dim(); i++)
          {
-            if(((_realLP->lhs()[i] <= R(-realParam(SoPlexBase<R>::INFTY)))
+            if(((lhsReal(i) <= R(-realParam(SoPlexBase<R>::INFTY)))
                   != (_rationalLP->lhs()[i] <= _rationalNegInfty))
-                  || (_realLP->lhs()[i] > R(-realParam(SoPlexBase<R>::INFTY))
+                  || (lhsReal(i) > R(-realParam(SoPlexBase<R>::INFTY))
                       && _rationalLP->lhs()[i] > _rationalNegInfty
-                      && !isAdjacentTo(_rationalLP->lhs()[i], (double)_realLP->lhs()[i])))
+                      && !isAdjacentTo(_rationalLP->lhs()[i], (double)lhsReal(i))))
             {
                if(!quiet)
                {
                   SPX_MSG_INFO1(spxout, spxout << "Entries number " << i <<
                                 " of the left hand side vectors don't match."
-                                << " R LP: " << _realLP->lhs()[i] << "  Rational LP: " << _rationalLP->lhs()[i] << std::endl);
+                                << " R LP: " << lhsReal(i) << "  Rational LP: " << _rationalLP->lhs()[i] << std::endl);
                }
 
                lhsValMatch = false;
@@ -7194,13 +7194,13 @@ bool SoPlexBase<R>::areLPsInSync(const bool checkVecVals, const bool checkMatVal
       {
          for(int i = 0; i < _realLP->maxObj().dim(); i++)
          {
-            if(!isAdjacentTo(_rationalLP->maxObj()[i], (double)_realLP->maxObj()[i]))
+            if(!isAdjacentTo(_rationalLP->maxObj()[i], (double)maxObjReal(i)))
             {
                if(!quiet)
                {
                   SPX_MSG_INFO1(spxout, spxout << "Entries number " << i <<
                                 " of the objective function vectors don't match."
-                                << " R LP: " << _realLP->maxObj()[i] << "  Rational LP: " << _rationalLP->maxObj()[i] << std::endl);
+                                << " R LP: " << maxObjReal(i) << "  Rational LP: " << _rationalLP->maxObj()[i] << std::endl);
                }
 
                maxObjValMatch = false;
@@ -7220,16 +7220,16 @@ bool SoPlexBase<R>::areLPsInSync(const bool checkVecVals, const bool checkMatVal
       {
          for(int i = 0; i < _realLP->upper().dim(); i++)
          {
-            if(((_realLP->upper()[i] >= R(realParam(SoPlexBase<R>::INFTY)))
+            if(((upperReal(i) >= R(realParam(SoPlexBase<R>::INFTY)))
                   != (_rationalLP->upper()[i] >= _rationalPosInfty))
-                  || (_realLP->upper()[i] < R(realParam(SoPlexBase<R>::INFTY))
+                  || (upperReal(i) < R(realParam(SoPlexBase<R>::INFTY))
                       && _rationalLP->upper()[i] < _rationalPosInfty
-                      && !isAdjacentTo(_rationalLP->upper()[i], (double)_realLP->upper()[i])))
+                      && !isAdjacentTo(_rationalLP->upper()[i], (double)upperReal(i))))
             {
                if(!quiet)
                {
                   SPX_MSG_INFO1(spxout, spxout << "Entries number " << i << " of the upper bound vectors don't match."
-                                << " R LP: " << _realLP->upper()[i] << "  Rational LP: " << _rationalLP->upper()[i] << std::endl);
+                                << " R LP: " << upperReal(i) << "  Rational LP: " << _rationalLP->upper()[i] << std::endl);
                }
 
                upperValMatch = false;
@@ -7248,16 +7248,16 @@ bool SoPlexBase<R>::areLPsInSync(const bool checkVecVals, const bool checkMatVal
       {
          for(int i = 0; i < _realLP->lower().dim(); i++)
          {
-            if(((_realLP->lower()[i] <= R(-realParam(SoPlexBase<R>::INFTY)))
+            if(((lowerReal(i) <= R(-realParam(SoPlexBase<R>::INFTY)))
                   != (_rationalLP->lower()[i] <= _rationalNegInfty))
-                  || (_realLP->lower()[i] >= R(-realParam(SoPlexBase<R>::INFTY))
+                  || (lowerReal(i) >= R(-realParam(SoPlexBase<R>::INFTY))
                       && _rationalLP->lower()[i] > _rationalNegInfty
-                      && !isAdjacentTo(_rationalLP->lower()[i], (double)_realLP->lower()[i])))
+                      && !isAdjacentTo(_rationalLP->lower()[i], (double)lowerReal(i))))
             {
                if(!quiet)
                {
                   SPX_MSG_INFO1(spxout, spxout << "Entries number " << i << " of the lower bound vectors don't match."
-                                << " R LP: " << _realLP->lower()[i] << "  Rational LP: " << _rationalLP->lower()[i] << std::endl);
+                                << " R LP: " << lowerReal(i) << "  Rational LP: " << _rationalLP->lower()[i] << std::endl);
                }
 
                lowerValMatch = false;
@@ -7279,15 +7279,19 @@ bool SoPlexBase<R>::areLPsInSync(const bool checkVecVals, const bool checkMatVal
 
       for(int i = 0; i < _realLP->nCols() ; i++)
       {
+         // the real LP may be persistently scaled: compare the unscaled column
+         DSVectorBase<R> realcol;
+         getColVectorReal(i, realcol);
+
          for(int j = 0; j < _realLP->nRows() ; j++)
          {
-            if(!isAdjacentTo(_rationalLP->colVector(i)[j], (double)_realLP->colVector(i)[j]))
+            if(!isAdjacentTo(_rationalLP->colVector(i)[j], (double)realcol[j]))
             {
                if(!quiet)
                {
                   SPX_MSG_INFO1(spxout, spxout << "Entries number " << j << " of column number " << i <<
                                 " don't match."
-                                << " R LP: " << _realLP->colVector(i)[j] << "  Rational LP: " << _rationalLP->colVector(
+                                << " R LP: " << realcol[j] << "  Rational LP: " << _rationalLP->colVector(
                                    i)[j] << std::endl);
                }
 
